@@ -622,6 +622,18 @@ heap_fn("route_p", ROUTE_FIELDS, S, lambda e: VStr(e))
 heap_fn("route_p_none", ROUTE_FIELDS, B, lambda e: VBool(e))
 
 
+# k-fold parent of a path: dn(p, 0) = p, dn(p, k+1) = dirname(dn(p, k))
+p_dn = z3.Function("p_dn", S, I, S)
+SPEC.funcs["p_dn"] = lambda ex, st, p, k: VStr(p_dn(_s(p), _i(k)))
+
+
+@SPEC.fn("L_dn")
+def _L_dn(ex, st, p, k):
+    """definition of dn unfolded at k (k >= 0)"""
+    pe, ke = _s(p), _i(k)
+    return VBool(z3.And(p_dn(pe, 0) == pe, z3.Implies(ke >= 0, p_dn(pe, ke + 1) == p_dirname(p_dn(pe, ke)))))
+
+
 @SPEC.fn("dict_is_empty")
 def _dict_is_empty(ex, st, d):
     """no key is present"""
